@@ -7,12 +7,12 @@ wt=/tmp/evalwt_$$
 git -C /repo worktree add -q $wt HEAD || exit 9
 cd $wt
 PYTHONPATH=$wt/src /venv/bin/python $d/demo.py >/dev/null 2>&1; echo "demo without patch: exit=$? (want 0)"
-if ! git apply $d/patch.diff; then echo "PATCH DOES NOT APPLY"; git -C /repo worktree remove --force $wt; exit 9; fi
+if ! git apply $d/patch.diff 2>/dev/null && ! git apply -C1 $d/patch.diff; then echo "PATCH DOES NOT APPLY"; git -C /repo worktree remove --force $wt; exit 9; fi
 PYTHONPATH=$wt/src /verif/tools/baseline_check.py $wt 2>&1 | grep -v WARNING
 PYTHONPATH=$wt/src /venv/bin/python $d/demo.py >/dev/null 2>&1; echo "demo with patch: exit=$? (want 1)"
 cd /verif
 git -C /repo worktree remove --force $wt
-git -C /repo apply $d/patch.diff || exit 9
+git -C /repo apply $d/patch.diff 2>/dev/null || git -C /repo apply -C1 $d/patch.diff || exit 9
 for prop in "$@"; do
   /verif/check "$prop" --tier quick --no-evidence > /tmp/eval_out_$$ 2>&1; rc=$?
   grep -E "VIOLATION|UNDECIDED|CHECKER-CRASH|tier=" /tmp/eval_out_$$ | cut -c1-300 | head -8
